@@ -267,8 +267,21 @@ def one_rules(case):
     # timing variant
     tabs = simcases.Tables(case, labels)
     outs2 = [[v for v in adj[u] if tabs.sir_delay(labels[u], labels[v]) <= tabs.sir_duration(labels[u])] for u in range(n)]
+    tabs.calls = []
     r = run_under(SimRandom(SEEDED, seed=1), EoN.estimate_nonMarkov_SIR_prob_size_with_timing, G,
                   tabs.sir_trans_time, tabs.sir_rec_time)
+    if r.status == "done":
+        # duration(u) is ONE value per node: a (possibly random) user rule must be asked exactly once
+        # per node, and the delay rule once per ordered neighbour pair
+        nrec = {}
+        for c in tabs.calls:
+            if c[0] == "rec":
+                nrec[c[1]] = nrec.get(c[1], 0) + 1
+        bad = [u for u in labels if nrec.get(u, 0) != 1]
+        if bad:
+            return [V("rule_calls", "estimate_nonMarkov_SIR_prob_size_with_timing/duration-rule-not-asked-once-per-node",
+                      "rec_time_fxn was called %r times for node %r (one infectious duration per node is what the percolated "
+                      "graph is defined by)" % (nrec.get(bad[0], 0), bad[0]), case)]
     if r.status != "exc" and r.status != "done":
         return []        # not under the harness's control (seam limit): never a verdict
     if r.status != "done":
@@ -324,7 +337,8 @@ def run_one(family, rng, idx, tier):
             if spec["edges"]:
                 keys = ["b|" + hashlib.sha256(repr(case).encode()).hexdigest()[:16]]
         elif family == "rules":
-            case = simcases.gen_case(rng, "fast_nonMarkov_SIR", nmax=10, buggify=False, allow_rho=False, horizon="inf")
+            case = simcases.gen_case(rng, "fast_nonMarkov_SIR", nmax=10, buggify=False, allow_rho=False, horizon="inf",
+                                     directed=rng.random() < 0.35)
             case["thr"] = rng.choice([0.0, 0.1, 0.3, 0.6])
             case["fam"] = "rules"
             v = one_rules(case)
